@@ -117,14 +117,14 @@ class Rule_CV10(BaseRule):
             assert pos_marker is not None
 
             # Check whether the quote characters are inside the template.
-            # For the leading quote we need to account for string prefix characters.
-            leading_quote_inside_template = pos_marker.source_str()[:2].lstrip(
+            # For the leading quote we need to account for string prefix characters
+            # (there may be two of them, e.g. rb'...'). NOTE: We slice rather than
+            # index here, so that running out of characters means "not a quote".
+            source_str = pos_marker.source_str()
+            leading_quote_inside_template = source_str.lstrip(
                 self._string_prefix_chars
-            )[0] not in ['"', "'"]
-            trailing_quote_inside_template = pos_marker.source_str()[-1] not in [
-                '"',
-                "'",
-            ]
+            )[:1] not in ['"', "'"]
+            trailing_quote_inside_template = source_str[-1:] not in ['"', "'"]
 
             # quotes are not entirely outside of a template, nothing we can do
             if leading_quote_inside_template or trailing_quote_inside_template:
